@@ -1363,7 +1363,9 @@ func (fc *FnCtx) sendTo(fr *frame, st *State, from, to *ssa.BasicBlock, incoming
 	// then needed in the state after the body although the back edge is not taken. It is checked
 	// there (loopN.invK.exit) and assumed on the exit edge.
 	for _, s2 := range from.Succs {
-		if s2 != to && isBackEdge(from, s2) {
+		// only the compiler's rotated form of `for i := range n` (latch -> rangeint.done): an early
+		// return or break from a block that also has a back edge is not a place where the invariant holds
+		if s2 != to && isBackEdge(from, s2) && to.Comment == "rangeint.done" && s2.Comment == "rangeint.body" {
 			if li := fr.loops[s2]; li != nil && !li.blocks[to] {
 				if ls := fc.loopSpec(fr, li); ls != nil {
 					env := fc.loopEnv(fr, st, li)
